@@ -4,7 +4,7 @@ import os
 HERE = os.path.dirname(os.path.abspath(__file__))
 DEFAULT = dict(Stacks="StacksAll", Outcomes="Out13", TagOps="TagOps2", Times='{"1", "2"}', MaxCalls=8, MaxTests=2, MaxRuns=1, MaxIds=9,
                MaxTagOps=0, MaxTimes=0, AllowStop="FALSE", AllowSetFF="FALSE", AllowSkipNoStart="FALSE", AllowDone="FALSE",
-               AllowProgress="FALSE", PreFF="{FALSE}", Coded="{}")
+               AllowProgress="FALSE", PreFF="{FALSE}", Coded="{}", SubErrs="{}", DetIds='{"fresh"}')
 INVS = ("Verdict", "TagsScoped", "TagsObserved", "ExactlyOnce", "NoUpgrade")
 PROPS = ("FailFastStops", "FailFastNotEarlier", "StopReaches", "DeliveredStable")
 
@@ -17,7 +17,7 @@ def cfg(name, mode, **kw):
     for k in ("Stacks", "Outcomes", "TagOps"):
         lines.append("  %s <- %s" % (k, d[k]))
     for k in ("Times", "MaxCalls", "MaxTests", "MaxRuns", "MaxTagOps", "MaxTimes", "MaxIds", "AllowStop", "AllowSetFF", "AllowSkipNoStart",
-              "AllowDone", "AllowProgress", "PreFF", "Coded"):
+              "AllowDone", "AllowProgress", "PreFF", "Coded", "SubErrs", "DetIds"):
         lines.append("  %s = %s" % (k, d[k]))
     if mode in ("exp", "sim"):
         lines.append("CONSTRAINT ExportC")
@@ -41,6 +41,9 @@ cfg("rs_expA1.cfg", "exp", Stacks="StacksByTest", Outcomes="Out1", TagOps="TagOp
 cfg("rs_expB.cfg", "exp", Times='{"1", "none"}', Stacks="StacksTimes", Outcomes="Out1", MaxTests=1, MaxTimes=2, MaxCalls=9, AllowDone="TRUE", AllowProgress="TRUE")
 cfg("rs_expB3.cfg", "exp", Times='{"1", "2", "none"}', Stacks="StacksTimes", Outcomes="Out1", MaxTests=1, MaxTimes=3, MaxCalls=9, AllowDone="TRUE", AllowProgress="TRUE")
 cfg("rs_expB2.cfg", "exp", Times='{"1", "none"}', Stacks="StacksTimes", Outcomes="Out2", MaxTests=2, MaxTimes=2, MaxCalls=10, AllowDone="TRUE", AllowProgress="TRUE")
+# details identity: a fresh dict per outcome | ONE dict object re-used (cleared and refilled) for consecutive outcomes
+cfg("rs_expD.cfg", "exp", Outcomes="OutDet", DetIds='{"fresh", "reuse"}', MaxTests=2, MaxCalls=8)
+cfg("rs_expD3.cfg", "exp", Stacks="StacksOld", Outcomes="OutDet", DetIds='{"fresh", "reuse"}', MaxTests=3, MaxCalls=11)
 cfg("rs_mcA3all.cfg", "mc", Outcomes="Out13", MaxTests=3, MaxCalls=11)
 cfg("rs_mcAq.cfg", "mc", Stacks="StacksCore", Outcomes="Out6", MaxTests=3, MaxCalls=11)
 cfg("rs_mcA3.cfg", "mc", Stacks="StacksCore", Outcomes="Out13", MaxTests=3, MaxCalls=11)
@@ -51,6 +54,9 @@ cfg("rs_expC3.cfg", "exp", Outcomes="Out2", MaxRuns=2, PreFF=BOTH, MaxCalls=10)
 # the same test listed twice and failing each time: one test id, several problems (summary total = number of problems)
 cfg("rs_expP1.cfg", "exp", Stacks="StacksText", Outcomes="Out4", PreFF=BOTH, MaxTests=3, MaxIds=1, MaxCalls=11)
 cfg("rs_expP.cfg", "exp", Stacks="StText", Outcomes="Out6", PreFF=BOTH, MaxTests=3, MaxCalls=11)
+# addSubTest (inherited from unittest.TestResult) on testtools' own result classes: failing / erroring / passing subtests
+cfg("rs_expS.cfg", "exp", Stacks="StTop", Outcomes="Out1", SubErrs='{"failure", "error", "none"}', PreFF=BOTH, MaxTests=2, MaxRuns=2, MaxCalls=12)
+cfg("rs_expS2.cfg", "exp", Stacks="StTop", Outcomes="Out3", SubErrs='{"failure", "error", "none"}', PreFF=BOTH, MaxTests=2, MaxRuns=2, MaxCalls=12)
 cfg("rs_expC4.cfg", "exp", Outcomes="Out6", AllowStop="TRUE", PreFF=BOTH, MaxTests=2, MaxRuns=2, MaxCalls=10)
 cfg("rs_mcC.cfg", "mc", Stacks="StacksCore", Outcomes="Out4", AllowStop="TRUE", AllowSetFF="TRUE", PreFF=BOTH, MaxRuns=2, MaxCalls=11)
 # --- C17: tags ----------------------------------------------------------------------------------------------------
@@ -61,11 +67,11 @@ cfg("rs_expT4.cfg", "exp", Stacks="StacksTags", Outcomes="Out1", TagOps="TagOps4
 cfg("rs_expT5.cfg", "exp", Stacks="StacksTags", Outcomes="Out1", TagOps="TagOps2", MaxTagOps=2, MaxTests=2, MaxRuns=2, MaxCalls=11)
 cfg("rs_mcT.cfg", "mc", Stacks="StacksCore", Outcomes="Out1", TagOps="TagOps4", MaxTagOps=3, MaxCalls=10, AllowSkipNoStart="TRUE")
 # --- deep random behaviours over the full alphabet ---------------------------------------------------------
-cfg("rs_sim.cfg", "sim", Times='{"1", "2", "none"}', Outcomes="Out20", TagOps="TagOpsAll", MaxCalls=24, MaxTests=4, MaxRuns=2, MaxTagOps=5, MaxTimes=4,
+cfg("rs_sim.cfg", "sim", DetIds='{"fresh", "reuse"}', Times='{"1", "2", "none"}', Outcomes="Out20", TagOps="TagOpsAll", MaxCalls=24, MaxTests=4, MaxRuns=2, MaxTagOps=5, MaxTimes=4,
     AllowStop="TRUE", AllowDone="TRUE", AllowProgress="TRUE", PreFF=BOTH)
 cfg("rs_sim13.cfg", "sim", Times='{"1", "2", "none"}', Outcomes="Out13", TagOps="TagOpsAll", MaxCalls=24, MaxTests=4, MaxRuns=2, MaxTagOps=5, MaxTimes=4,
     AllowStop="TRUE", AllowDone="TRUE", AllowProgress="TRUE", PreFF=BOTH)
-cfg("rs_simFF.cfg", "sim", Stacks="StacksSetFF", Outcomes="Out13", TagOps="TagOps4", MaxCalls=20, MaxTests=4, MaxRuns=2, MaxTagOps=2,
+cfg("rs_simFF.cfg", "sim", SubErrs='{"failure", "error", "none"}', Stacks="StacksSetFF", Outcomes="Out13", TagOps="TagOps4", MaxCalls=20, MaxTests=4, MaxRuns=2, MaxTagOps=2,
     MaxTimes=2, AllowStop="TRUE", AllowSetFF="TRUE")
 cfg("rs_simSkip.cfg", "sim", Outcomes="Out2", TagOps="TagOpsAll", MaxCalls=20, MaxTests=4, MaxRuns=2, MaxTagOps=6, AllowSkipNoStart="TRUE")
 # --- the known deviations of the code, switched on: TLC must find the counterexample (non-vacuity) ------------
